@@ -365,6 +365,9 @@ class ProdParser(object):
         self._log = css_parser.log
         if clear:
             tokenizer.clear()
+            # a token handed back by an earlier, unrelated parse which nobody
+            # picked up must not become part of this one
+            del savedTokens[:]
 
     def _texttotokens(self, text):
         """Build a generator which is the only thing that is parsed!
